@@ -24,7 +24,7 @@ type SolverCfg struct {
 var solverCmds = [][]string{
 	{"z3-new", "-smt2", "smt.mbqi=false"},
 	{"z3-new", "-smt2"},
-	{"cvc5", "--incremental", "--lang=smt2", "--force-logic=ALL"},
+	{"cvc5", "--incremental", "--lang=smt2", "--force-logic=ALL", "--strings-exp"},
 	{"z3", "-smt2"},
 }
 
